@@ -106,6 +106,9 @@ class C06(Prop):
                 m, _, c = convert(t, carried=True)
             except ac.Unsupported as e:
                 return {"unmodelled": str(e), "n_steps": len(log), "kinds": ["oracle-only"], "d26_steps": loop_steps_with_other_setups(log)}
+            from props.c07 import eval_cost, EVAL_LIMIT
+            if eval_cost(c.body) > EVAL_LIMIT:
+                return {"unmodelled": "evaluator cost", "n_steps": len(log), "kinds": ["oracle-only"], "d26_steps": loop_steps_with_other_setups(log)}
             convs.append((m, c))
             progs.append({"prog": c.program(), "points": ac.real_inference_at_points(c), "carried": bool(c.has_carried)})
         # the desugaring of carried values is part of the tie between model and code: validate it by execution — the model's CSR
